@@ -195,6 +195,18 @@ theorem inv2_step (cfg : Cfg) {st : St} (e : Ev) (hi : Inv st) (h : Inv2 st) : I
     split
     · exact inv2_same h (by simp) (by simp) (by simp) (by simp)
     · exact h
+  case foreignNames m t =>
+    split
+    · exact inv2_same h (by simp) (by simp) (by simp) (by simp)
+    · exact h
+  case foreignMetric m =>
+    split
+    · exact inv2_same h rfl rfl rfl rfl
+    · exact h
+  case foreignTagv m t =>
+    split
+    · exact inv2_same h rfl rfl rfl rfl
+    · exact h
   case applyTake =>
     split
     · apply inv2_same h <;> (unfold doApplyTake; (repeat' split) <;> rfl)
